@@ -105,7 +105,7 @@ def _apply_transforms(e, st, pv, transforms):
             raise Unsupported("symbolic poll result under Map/Fuse")
         if d != 0:
             continue
-        if tr[0] == 'wrap_ok':
+        if tr[0] in ('wrap_ok', 'catch'):
             pv = VAgg(name='Poll', vname='Ready', disc=0, fields={('v', 'Ready', 0): VAgg(name='Result', vname='Ok', disc=0, fields={('v', 'Ok', 0): e.get_field(pv, ('v', 'Ready', 0))})})
         elif tr[0] == 'map':
             pv = VAgg(name='Poll', vname='Ready', disc=0,
@@ -134,6 +134,12 @@ def poll_into(e, st, ref, cx, t, transforms=()):
         return poll_into(e, st, _target_of_pin(e, st, fut), cx, t, transforms)
     if isinstance(fut, VRef):
         return poll_into(e, st, fut, cx, t, transforms)
+    if isinstance(fut, VAgg) and fut.name == 'CatchUnwind':
+        # futures::future::CatchUnwind<AssertUnwindSafe<F>>: Ready(v) -> Ready(Ok(v)); an unwind out of the inner poll is
+        # caught at this boundary and becomes Ready(Err(payload)) (see c_catch_unwind / Engine.do_unwind)
+        return poll_into(e, st, VRef(ref.root, ref.path + (('f', 0),), True), cx, t, (('catch',),) + tuple(transforms))
+    if isinstance(fut, VAgg) and fut.name == 'AssertUnwindSafe' and ('f', 0) in fut.fields:
+        return poll_into(e, st, VRef(ref.root, ref.path + (('f', 0),), True), cx, t, transforms)
     if isinstance(fut, VAgg) and fut.name == 'Abortable':
         flag = st.objs[fut.extra['oid']].extra
         if flag['aborted']:
@@ -159,7 +165,7 @@ def poll_into(e, st, ref, cx, t, transforms=()):
             if not transforms:
                 e.push_call(st, body, [VRef(cref.root, cref.path, True), cx], ret_dest=t.dest, ret_bb=t.target, unwind_bb=t.unwind)
                 return None
-            st.meta['conts'] = st.meta.get('conts', []) + [('poll_result', (t.dest, t.target, tuple(transforms)))]
+            st.meta['conts'] = st.meta.get('conts', []) + [(_cont_tag(transforms), (t.dest, t.target, tuple(transforms)))]
             e.push_call(st, body, [VRef(cref.root, cref.path, True), cx], ret_dest=None, ret_bb=-1, unwind_bb=t.unwind, tag='cont')
             return None
     if fn is None and isinstance(fut, VAgg) and fut.name == 'PollFn':
@@ -170,7 +176,7 @@ def poll_into(e, st, ref, cx, t, transforms=()):
             if not transforms:
                 e.push_call(st, body, [clo_ref, cx], ret_dest=t.dest, ret_bb=t.target, unwind_bb=t.unwind)
                 return None
-            st.meta['conts'] = st.meta.get('conts', []) + [('poll_result', (t.dest, t.target, tuple(transforms)))]
+            st.meta['conts'] = st.meta.get('conts', []) + [(_cont_tag(transforms), (t.dest, t.target, tuple(transforms)))]
             e.push_call(st, body, [clo_ref, cx], ret_dest=None, ret_bb=-1, unwind_bb=t.unwind, tag='cont')
             return None
     if fn is None and hasattr(e, 'resolve_future_impl'):
@@ -180,11 +186,13 @@ def poll_into(e, st, ref, cx, t, transforms=()):
         if not transforms:
             e.push_call(st, fn, [pin, cx], ret_dest=t.dest, ret_bb=t.target, unwind_bb=t.unwind)
             return None
-        st.meta['conts'] = st.meta.get('conts', []) + [('poll_result', (t.dest, t.target, tuple(transforms)))]
+        st.meta['conts'] = st.meta.get('conts', []) + [(_cont_tag(transforms), (t.dest, t.target, tuple(transforms)))]
         e.push_call(st, fn, [pin, cx], ret_dest=None, ret_bb=-1, unwind_bb=t.unwind, tag='cont')
         return None
     if not hasattr(e, 'leaf_poll'):
         raise Unsupported(f"no leaf_poll hook for {fut!r}")
+    if any(tr[0] == 'catch' for tr in transforms):
+        raise Unsupported("catch_unwind directly around a leaf future")
     res = []
     for s2, pv in e.leaf_poll(st, ref, fut):
         if s2.meta.get('panic_now'):
@@ -196,6 +204,25 @@ def poll_into(e, st, ref, cx, t, transforms=()):
         f2.bb = t.target
         res.append(s2)
     return res
+
+
+def _cont_tag(transforms):
+    return 'catch_unwind' if any(tr[0] == 'catch' for tr in transforms) else 'poll_result'
+
+
+def c_catch_unwind(e, st, data, rv):
+    """the poll under a CatchUnwind returned (rv is its Poll value) or unwound (rv is None)"""
+    if rv is not None:
+        return c_poll_result(e, st, data, rv)
+    dest, target, transforms = data
+    i = next(k for k, tr in enumerate(transforms) if tr[0] == 'catch')
+    st.event('unwind_caught', 'catch_unwind')
+    pv = VAgg(name='Poll', vname='Ready', disc=0, fields={('v', 'Ready', 0): VAgg(name='Result', vname='Err', disc=1, fields={('v', 'Err', 0): VAgg(name='PanicPayload')})})
+    pv = _apply_transforms(e, st, pv, transforms[i + 1:])
+    f2 = st.frames[-1]
+    e.write_place(st, f2, dest, pv)
+    f2.bb = target
+    return None
 
 
 def c_poll_result(e, st, data, rv):
@@ -431,6 +458,7 @@ def m_option_filter(e, st, fr, t, args):
 
 def install_common(eng: Engine):
     eng.conts['poll_result'] = c_poll_result
+    eng.conts['catch_unwind'] = c_catch_unwind
     eng.conts['wrap_ready'] = c_wrap_ready
     M = eng.models
     M.append((R(r'<Level as PartialOrd<LevelFilter>>::le'), m_false))
